@@ -39,13 +39,19 @@ def generate(rng, prop, tier):
     names = sorted(mats)
     ops = []
     n_est = 1
+    n_fits = 0
     n_ops = rng.randint(6, 14 if tier == "quick" else 30)
     p_fit = 0.12 if prop == "C17" else 0.03
+    if "linear" not in d.get("tags", []) and d["name"] == "swarm":
+        # domain: fits only on linear(ised-exactly) models; a nonlinear model (x**9 readings, cubic dynamics) can overflow on
+        # bounded data, and 'the filter diverged numerically' is not what the fit dichotomy is about
+        p_fit = 0.0
     for _ in range(n_ops):
         r = rng.random()
         tgt = rng.randrange(n_est)
-        if r < p_fit:
-            mode = rng.choice(["real", "real", "fail_after:%d" % rng.randint(0, 6), "early_stop:%d" % rng.randint(1, 6), "negative_probe"])
+        if r < p_fit and n_fits < (2 if tier == "quick" else 5):
+            n_fits += 1
+            mode = rng.choice(["real", "fail_after:%d" % rng.randint(0, 6), "early_stop:%d" % rng.randint(1, 6), "negative_probe"] + (["real"] if tier != "quick" else []))
             rows = rng.randint(3, 8)
             mats[f"f{len(mats)}"] = _matrix(rng, rows, width, rng.choice([0.5, 1.0, 3.0, 10.0]))
             ops.append({"op": "fit", "est": tgt, "X": f"f{len(mats) - 1}", "minimize": mode, "faults": [] if mode == "real" else ["minimize:" + mode.split(":")[0]]})
